@@ -16,7 +16,7 @@ import json, os, struct, sys
 from fractions import Fraction
 import vlib
 
-PROP_FILES = ["Properties_C20.v"]
+PROP_FILES = ["Properties_C20.v", "Properties_float.v"]
 EPS = Fraction(1, 2 ** 53)
 DBL_MAX = Fraction((2 ** 53 - 1) * 2 ** 971)
 MEAS = {"mean": 0.0, "s": 0.0, "var": 0.0}    # largest observed |error| / tolerance per field
